@@ -55,7 +55,11 @@ pub enum RawVal {
     Num(RawNum),
     Range(RawNum, RawNum),
     Text(u8),
+    /// text value that begins with a number; only ever written with an explicit `%unit`
+    NumText(u8),
 }
+
+pub const NUM_TEXT_VALUES: &[&str] = &["2 heaped", "1 big", "3 or 4", "1 1/2 generous", "2 x 400"];
 
 #[derive(Debug, Clone, Serialize, Deserialize)]
 pub struct RawQty {
@@ -149,6 +153,7 @@ fn raw_qty() -> impl Strategy<Value = RawQty> {
         5 => raw_num().prop_map(RawVal::Num),
         2 => (raw_num(), raw_num()).prop_map(|(a, b)| RawVal::Range(a, b)),
         2 => (0u8..TEXT_VALUES.len() as u8).prop_map(RawVal::Text),
+        1 => (0u8..NUM_TEXT_VALUES.len() as u8).prop_map(RawVal::NumText),
     ];
     (any::<bool>(), val, proptest::option::weighted(0.7, 0u8..UNITS.len() as u8), any::<bool>())
         .prop_map(|(lock, val, unit, blank_sep)| RawQty { lock: lock && blank_sep, val, unit, blank_sep })
@@ -370,17 +375,28 @@ impl Builder {
                 }
             }
             RawVal::Text(i) => ValM::Text(TEXT_VALUES[*i as usize % TEXT_VALUES.len()].to_string()),
+            RawVal::NumText(i) => {
+                if ingredient {
+                    ValM::Text(NUM_TEXT_VALUES[*i as usize % NUM_TEXT_VALUES.len()].to_string())
+                } else {
+                    // cookware has no unit to anchor the `%`: plain text value
+                    ValM::Text(TEXT_VALUES[*i as usize % TEXT_VALUES.len()].to_string())
+                }
+            }
         };
         // mixed numbers / fractions on both sides of a range are fine; keep as is
         if let ValM::Range(a, _) = &value {
             // a range starting with a mixed number is spelled `1 1/2-2`, fine
             let _ = a;
         }
-        let unit = if ingredient {
+        let mut unit = if ingredient {
             r.unit.map(|u| UNITS[u as usize % UNITS.len()].to_string())
         } else {
             None
         };
+        if matches!(r.val, RawVal::NumText(_)) && ingredient && unit.is_none() {
+            unit = Some("tbsp".to_string());
+        }
         let lock = r.lock && ingredient && !value.is_text() && self.ext;
         // blank separator (`1 kg`): Ext, numeric value, unit present and starting with a letter
         let blank_sep = self.ext && r.blank_sep && !value.is_text() && unit.as_ref().is_some_and(|u| u.chars().next().unwrap().is_alphabetic());
@@ -507,6 +523,12 @@ impl Builder {
                 if needs_new {
                     mods |= M_NEW;
                 }
+            }
+        }
+        // a text value that starts with a number is only unambiguous with an explicit `%unit`
+        if let Some(q) = &qty {
+            if matches!(&q.value, ValM::Text(t) if t.starts_with(|c: char| c.is_ascii_digit())) && q.unit.is_none() {
+                qty = None;
             }
         }
         // braces
